@@ -45,6 +45,24 @@ func rawClause[K comparable](out *[]string, p *Pool, clause, owner string, got, 
 
 func checkAll(p *Pool) []string {
 	var out []string
+	// C06: a call that was accepted must leave every payload layout valid (otherwise it should have
+	// been refused for lack of space); evaluators of the C01/C07 stream
+	for _, e := range p.ents {
+		e := e
+		switch e.K {
+		case KMsg:
+			for _, b := range vinv.Guard("c06-layout-invalid", func() []string { return vinv.CheckMessageLayout(e.Msg) }) {
+				out = append(out, "c06-layout-invalid: "+p.describe(e.H)+": "+b)
+			}
+		case KSig:
+			if e.Sig.Kind() == acme.SignalKindMultiplexer && e.Sig.ParentMessage() == nil {
+				mx, _ := e.Sig.ToMultiplexer()
+				for _, b := range vinv.Guard("c06-layout-invalid", func() []string { return vinv.CheckMultiplexer(mx) }) {
+					out = append(out, "c06-layout-invalid: "+p.describe(e.H)+": "+b)
+				}
+			}
+		}
+	}
 	for _, e := range p.ents {
 		e := e
 		out = append(out, vinv.Guard("c04-lookup-panics", func() []string { return checkEnt(p, e) })...)
